@@ -55,6 +55,14 @@ reg("C15", "Hypothesis -> reference compressors -> tar2sqfs / sqfs2tar -c (asan)
     "Trusts the reference codecs; hang detection is a wall-clock bound; a damaged stream that the reference decompressor still expands to the "
     "same bytes counts as undamaged.", "DESIGN.md 4/C15")
 
+reg("C16", "Hypothesis -> gensquashfs --pack-dir -> rdsquashfs -d/-u -> gensquashfs -F (asan) -> independent parser", "exploration",
+    "round trip (describe -> unpack -> repack) compared through an independent parser",
+    "Trees whose names, symlink targets and unpack roots carry every quoting-relevant byte (space, tab, quote, backslash, '#', CR, leading '-', "
+    "high bytes) in first/middle/last position are packed without the pack-file parser, described (with and without --unpack-root, absolute "
+    "and relative), unpacked and re-packed from the listing; the independent parser must see the same paths, types, modes, owners, targets, "
+    "device numbers and contents.", "Trusts lib/sqfsimg.py; newline is excluded as the statement says; hard-link groups and time stamps are not compared.",
+    "DESIGN.md 4/C16")
+
 NOT_YET = {}
 
 ALL = ["C%02d" % i for i in range(1, 20)]
